@@ -661,3 +661,44 @@ func C02Entry(g *ref.Grammar, def, sw func() Parser, n, rule, nsw int) {
 	}
 	rt.Reach("done")
 }
+
+// C05Unit: the real AST() on k tokens with ARBITRARY spans in [0, 6], assuming only what every
+// parse guarantees (post-order: a later token either contains an earlier one or starts at or
+// after its end; begin <= end), against the tree defined directly from the spans. Covers every
+// derivation shape with k tokens (equal spans, zero-width tokens between siblings, many
+// siblings) independently of any grammar.
+func C05Unit(astOf func(b, e []int) []*ref.Node, rule string, k int) {
+	const max = 6
+	b := make([]int, k)
+	e := make([]int, k)
+	toks := make([]ref.Tok, k)
+	for i := 0; i < k; i++ {
+		b[i] = rt.Int("b" + string(rune('0'+i)))
+		e[i] = rt.Int("e" + string(rune('0'+i)))
+		rt.Assume(rt.And(0 <= b[i], b[i] <= e[i], e[i] <= max))
+		for j := 0; j < i; j++ {
+			inside := rt.And(b[i] <= b[j], e[j] <= e[i])
+			before := e[j] <= b[i]
+			rt.Assume(rt.Or(inside, before))
+		}
+		toks[i] = ref.Tok{Rule: rule, B: b[i], E: e[i]}
+	}
+	got := astOf(b, e)
+	want := ref.Tree(toks)
+	// AST() returns the top of its stack: the last root and, through next, the earlier ones
+	rt.Assert("unit/ast", sameForest(got, want))
+	rt.Reach("done")
+}
+
+// sameForest compares the real AST (a next-chain starting at the LAST root, as AST() returns the
+// top of its stack... for a complete parse there is exactly one root) with the expected roots.
+func sameForest(got, want []*ref.Node) bool {
+	if len(want) == 0 {
+		return len(got) == 0
+	}
+	// AST() returns only the last root (with its subtree); earlier roots are unreachable from it
+	if len(got) != 1 {
+		return false
+	}
+	return sameTree(got, want[len(want)-1:])
+}
